@@ -3,7 +3,7 @@
 # harness always links the working tree of /repo (replace => /repo) with exactly the
 # dependency versions (and replace directives) the repository itself uses.
 set -euo pipefail
-H=/verif/harness
+H=${VERIF_ROOT:-/verif}/harness
 R=${VERIF_REPO:-/repo}
 tmp=$(mktemp "$H/.go.mod.XXXXXX")
 {
